@@ -49,8 +49,8 @@ reg('C12',
 
 reg('C10',
     title='error queue is a bounded FIFO that marks overflow and owns its texts',
-    src='c10_fifo.c', engine='mcx', ldflags=['-Wl,--wrap=strndup,--wrap=free'],
-    configs={'quick': ['def', 'noinfo'], 'thorough': ['def', 'noinfo']},
+    src='c10_fifo.c', engine='mcx', ldflags=['-Wl,--wrap=strndup,--wrap=free,--wrap=malloc'],
+    configs={'quick': ['def', 'noinfo', 'c90'], 'thorough': ['def', 'noinfo', 'c90']},
     deadline={'quick': 100, 'thorough': 1200},
     level=MC,
     technique='explicit-state model checking (BFS to the fix-point) of the real queue in lock-step with a reference FIFO, with allocation faults as operations and an allocator ledger',
@@ -58,6 +58,7 @@ reg('C10',
           'bb"c with info_len 2 (thorough: + 300-byte text)} x allocator answer {ok, NULL}, SCPI_ErrorPop (+ release of the returned text), '
           'SCPI_ErrorClear, SCPI_ErrorCount, SYST:ERR?, SYST:ERR:COUN?, *CLS, two SYST:ERR? in one message; key = wr/rd/count, all ring slots, '
           'allocator slots, registers, model queue; every transition is compared with the reference FIFO and the allocator ledger; '
+          'after the capacity-2 run a limit sweep: 5 codes x content lengths 249..259 x double quotes at the first place and at up to two of the last six places, pushed with automatic / explicit length (unterminated source), read back by pop and by SYST:ERR? against the same response model; '
           'non-trivial = transition that pushes or changes the number of queued errors'),
     assumptions=['strndup/free are replaced at link time (--wrap) by a slot arena; freed and unused arena bytes are ASan-poisoned',
                  'error codes and texts outside the alphabet behave alike (the queue never inspects them)'],
@@ -73,14 +74,14 @@ reg('C20',
     level=MC,
     technique='explicit-state model checking (BFS to the fix-point) of the real static-heap error queue against a "text or nothing" reference FIFO',
     rule=('explicit-state BFS, one run per (heap size H, queue capacity N), H = 2..8 x N = 1..3 (quick) / H = 2..12 x N = 1..4 (thorough): operations = '
-          'push with a text of every length 0..H (letter not used by any live entry), two pushes with explicit shorter info_len, push without text, '
+          'push with a text of every length 0..H (letter not used by any live entry), two pushes with explicit shorter info_len, one with explicit exact length from an unterminated buffer, three pushes of texts whose last / first character is a double quote, push without text, '
           'SYST:ERR?, SCPI_ErrorClear, *CLS; key = queue indices and entries (text pointers as heap offsets), heap bytes, heap wr/count, model; every '
           'SYST:ERR? response is compared with the reference FIFO (exact text or none); in every state with an empty queue a probe push of H-1 characters '
           'must be stored whole; non-trivial = transition that pushes or changes the number of queued errors'),
     assumptions=['built with -DUSE_MEMORY_ALLOCATION_FREE=0 (a configuration the repository test suite never compiles)',
                  'the heap and the error ring are exact-size malloc blocks under ASan, so any access outside them traps'],
     level_text='Exhaustive for the stated heap sizes and capacities: BFS to the fix-point of the reachable state set (or the stated cap), every history over the operation alphabet.',
-    level_note='texts are runs of one letter; quote characters and the 255-character cut are the subject of C18',
+    level_note='texts are runs of one letter, three of them with a double quote at the first or last place; the 255-character cut is the subject of C18 (a linear large-heap scenario with texts above 255 characters is part of this check)',
     design_ref='DESIGN.md section 3 / C20')
 
 reg('C13',
@@ -117,14 +118,14 @@ reg('C19',
 reg('C03',
     title='a pattern accepts exactly the headers of its short/long-form language',
     src='c03_pattern.c',
-    configs={'quick': ['def'], 'thorough': ['def']},
+    configs={'quick': ['def', 'c90'], 'thorough': ['def', 'c90']},
     deadline={'quick': 100, 'thorough': 1500},
     level=MC,
     technique='bounded-exhaustive enumeration of (pattern, header) pairs on the real matcher (ASan), compared with an independent reference matcher, plus the public SCPI_Input path',
-    rule={'quick': 'patterns: all 1248 patterns of 1..4 keywords taken in order from {ABcd, EFgh, IJ, KLMno}, each keyword optional and/or numeric, with/without ?, plus 44 shipped/common patterns. headers per pattern: (A) every sequence of <= 3 mnemonics over {short, long, long-letter, short+"1"} of each keyword plus an alien mnemonic x colon x ? x 2 cases; (B) every keyword subset / alien insertion / adjacent swap spelled (up to 4 mnemonics) with every combination of 5 forms per mnemonic x colon x ? x 3 cases; an eighth of the patterns additionally through SCPI_Input -> handler -> SCPI_CommandNumbers. non-trivial = header the reference accepts',
+    rule={'quick': 'patterns: all 1248 patterns of 1..4 keywords taken in order from {ABcd, EFgh, IJ, KLMno}, each keyword optional and/or numeric, with/without ?, plus 44 shipped/common patterns. headers per pattern: (A) every sequence of <= 3 mnemonics over {short, long, long-letter, short+"1"} of each keyword plus an alien mnemonic x colon x ? x 2 cases; (B) every keyword subset / alien insertion / adjacent swap spelled (up to 4 mnemonics) with every combination of 5 forms per mnemonic x colon x ? x 3 cases; (C) for every numeric-suffix keyword of every pattern a correctly spelled header (short and long form) with each of 23 suffix texts behind that keyword (leading zeros, digits 8/9, 2147483647; sign, blank, tab, letter, radix prefix, exponent, point) x colon x ? x 3 cases; a second vocabulary {SYNChronization, W3GPp, RX_Level, IEEE488, W, RX} (keyword above 12 characters, digit or underscore inside the short form, keyword without lower-case part, keyword that is a prefix of another): 384 patterns of 1..2 keywords in 6 shapes; an eighth of the first-vocabulary patterns and all others additionally through SCPI_Input -> handler -> SCPI_CommandNumbers. non-trivial = header the reference accepts',
           'thorough': 'as quick with <= 5 (4 for 4-keyword patterns) mnemonics in (A), 8 forms and up to 5 mnemonics in (B) and every pattern through SCPI_Input'},
-    assumptions=['vocabulary keywords have pairwise distinct short and long forms, which guarantees the statement\'s unambiguity side condition',
-                 'numeric suffixes are decimal digit strings (the lexer admits nothing else inside a mnemonic)'],
+    assumptions=['vocabulary keywords have pairwise distinct short and long forms and optional keywords are only combined with keywords of a different initial, which guarantees the statement\'s unambiguity side condition',
+                 'a numeric suffix of up to 10 digits fits int32; larger values are not enumerated (the statement does not define them)'],
     level_text='Exhaustive over the stated pattern and header sets: any accept/reject disagreement with the reference language, any wrong or missing numeric suffix (including defaults for skipped keywords), and any read outside the header are reported.',
     level_note='matchCommand is a private (LOCAL) function called by name, as in the repository tests; SCPI_Match / SCPI_CommandNumbers cover the public path',
     design_ref='DESIGN.md section 3 / C03')
@@ -132,12 +133,12 @@ reg('C03',
 reg('C02',
     title='each message unit runs exactly the first command matching its effective header',
     src='c02_dispatch.c',
-    configs={'quick': ['def'], 'thorough': ['def', 'noinfo']},
+    configs={'quick': ['def', 'c90'], 'thorough': ['def', 'noinfo', 'c90']},
     deadline={'quick': 100, 'thorough': 1500},
     level=MC,
     technique='bounded-exhaustive enumeration of (command table, message) pairs executed through SCPI_Input (ASan, tail-poisoned input buffer), compared with a reference interpreter of the header-path and first-match rules',
-    rule={'quick': 'command tables: every ordered pair (110) and triple (990) of a pool of 11 overlapping patterns plus the whole pool in two orders; messages: every sequence of 1..3 units (1..2 for triples) over 28 header spellings (handlers of every second table entry fail with -200) (short/long, letter case, leading colon, optional keyword present/absent, numeric suffix, common, undefined with and without colons) x 2 separator styles; non-trivial = every message (each is compared unit by unit with the reference trace)',
-          'thorough': 'as quick with 1..4 units (1..3 for triples), additionally in the no-info build'},
+    rule={'quick': 'command tables: every ordered pair (110) and triple (990) of a pool of 11 overlapping patterns plus the whole pool in two orders; messages: every sequence of 1..3 units (1..2 for triples) over 31 header spellings (handlers of every second table entry fail with -200) (short/long, letter case, leading colon, optional keyword present/absent, numeric suffix, common, undefined with and without colons, undefined ones that differ from a defined keyword in the last character only) x 2 separator styles; the same for a second vocabulary of 9 patterns and 21 spellings (keywords of 13 and 15 characters, short forms holding a digit or underscore, a keyword that is a prefix of another, numeric suffix behind a 13-character keyword; ordered pairs and the whole pool in two orders); non-trivial = every message (each is compared unit by unit with the reference trace)',
+          'thorough': 'as quick with 1..4 units (1..3 for triples and for the second vocabulary, which also gets its triples), additionally in the no-info build'},
     assumptions=['after a common (*) command the next unit uses its header as written, as the statement says',
                  'the -113 text only has to contain the header as written'],
     level_text='Exhaustive over the stated tables and messages: wrong entry, wrong effective header, handler run twice/not at all, missing or spurious -113, and disagreement of SCPI_CmdTag / SCPI_IsCmd / SCPI_CommandNumbers with the model are reported.',
@@ -147,7 +148,7 @@ reg('C02',
 reg('C05',
     title='wrong, missing or surplus parameters raise the right error, never mis-delivered',
     src='c05_params.c',
-    configs={'quick': ['def'], 'thorough': ['def']},
+    configs={'quick': ['def', 'c90'], 'thorough': ['def', 'c90']},
     deadline={'quick': 100, 'thorough': 1500},
     level=MC,
     technique='bounded-exhaustive enumeration of (handler signature, parameter list) pairs executed through SCPI_Input on a fresh context (ASan), compared with a model of the statement driven by the reference tokenizer',
@@ -222,7 +223,7 @@ reg('C14',
 reg('C15',
     title='no formatting or copying API writes past the buffer the caller gave it',
     src='c15_bounds.c',
-    configs={'quick': ['def', 'dtostre'], 'thorough': ['def', 'dtostre', 'heap']},
+    configs={'quick': ['def', 'dtostre', 'c90'], 'thorough': ['def', 'dtostre', 'heap', 'c90']},
     deadline={'quick': 100, 'thorough': 600},
     level=MC,
     technique='complete enumeration of a finite product (buffer length x value x function x flags/precision) on the real formatting and copying functions with exact-size heap buffers under ASan',
@@ -235,7 +236,7 @@ reg('C15',
 reg('C17',
     title='binary results are valid definite-length blocks in the requested byte order',
     src='c17_blocks.c',
-    configs={'quick': ['def'], 'thorough': ['def']},
+    configs={'quick': ['def', 'c90'], 'thorough': ['def', 'c90']},
     deadline={'quick': 100, 'thorough': 900},
     level=MC,
     technique='bounded-exhaustive enumeration of result calls (element type x count x format x pattern; block lengths; every short header/data call script) inside a real query handler (ASan), byte-exact comparison with an independent block encoder',
@@ -250,7 +251,7 @@ reg('C17',
 reg('C18',
     title='the error query always yields one well-formed, bounded error response',
     src='c18_errquery.c',
-    configs={'quick': ['def', 'heap'], 'thorough': ['def', 'heap', 'noinfo']},
+    configs={'quick': ['def', 'heap', 'c90'], 'thorough': ['def', 'heap', 'noinfo', 'c90']},
     deadline={'quick': 100, 'thorough': 900},
     level=MC,
     technique='bounded-exhaustive enumeration of (error code, text length, quote placement) on the real SYST:ERR? path (ASan), each response parsed by an independent IEEE 488.2 string reader',
@@ -310,13 +311,13 @@ reg('C04',
 reg('C01',
     title='no out-of-bounds access, undefined behaviour or hang on any input stream',
     src='c01_memsafe.c',
-    configs={'quick': ['def', 'heap'], 'thorough': ['def', 'noinfo', 'heap', 'dtostre']},
+    configs={'quick': ['def', 'heap', 'dtostre'], 'thorough': ['def', 'noinfo', 'heap', 'dtostre']},
     deadline={'quick': 110, 'thorough': 1700},
     level=MC,
     technique='bounded-exhaustive enumeration of input byte strings x input-buffer sizes x segmentations x residues, executed on the real library under ASan + UBSan with exact-size heap blocks and a tail-poisoned input buffer',
-    rule={'quick': 'D1: every byte string of length <= 4 over 28 bytes (one per character class incl. NUL, 0x80, 0xFF) x every input-buffer size 2..len+2 x {whole, every single split point, one byte per call} + zero-length flush x {fresh context, 6 residues}, omnivore handlers applying every SCPI_ParamTo*/Expr*/Result*/ToStr API to every token; D2: "A <p> NL" for every p of length <= 4 over 20 bytes through the omnivore and each of 18 typed readers (two deliveries); D3: every D1 string NUL-terminated to SCPI_Parse; D4: every history of <= 4 messages over 9 steps (undefined headers of length 1..6, SYST:ERR?, *CLS) on one context, info heap sizes 5..12; D5: "A " + every string of length <= 5 over 11 token-forming bytes in exactly fitting buffers; error ring of 2 entries; default and static-heap (9-byte heap) builds; non-trivial = (string, buffer size) case that reached a handler',
+    rule={'quick': 'D1: every byte string of length <= 4 over 28 bytes (one per character class incl. NUL, 0x80, 0xFF) x every input-buffer size 2..len+2 x {whole, every single split point, one byte per call} + zero-length flush x {fresh context, 6 residues}, omnivore handlers applying every SCPI_ParamTo*/Expr*/Result*/ToStr API to every token; D2: "A <p> NL" for every p of length <= 4 over 20 bytes through the omnivore and each of 18 typed readers (two deliveries); D3: every D1 string NUL-terminated to SCPI_Parse; D4: every history of <= 4 messages over 9 steps (undefined headers of length 1..6, SYST:ERR?, *CLS) on one context, info heap sizes 5..12; D5: "A " + every string of length <= 5 over 11 token-forming bytes in exactly fitting buffers; D6: "A <token> NL" for every token length 1..400 of 10 token shapes (digits, digits with blank exponent, fraction with unit, mnemonic with digits and underscores, quoted string with doubled quotes, block with embedded NL, channel list, nondecimal, suffix program data, comma list) through the omnivore and 8 typed readers in exactly fitting buffers; D7: 12312 decimal literals that round up at the 6th / 15th digit when echoed (runs of 0..18 nines / 1000..0 / 1999..9, point at three places, six closing digit strings, six exponents, both signs) through the omnivore and the float/double/number/array readers; D8: every single-byte substitution and insertion (all 256 byte values) at every position of 16 well-formed messages that together use every token kind, whole into an exactly fitting buffer and split at the mutated byte into a 9-byte buffer; error ring of 2 entries; default and static-heap (9-byte heap) builds, and the built-in-dtostre build with D1/D2 shortened (it differs only in result formatting); non-trivial = (string, buffer size) case that reached a handler',
           'thorough': 'D1 additionally every string of length 5 (three buffer sizes; whole, one split, one byte per call; fresh context), D2/D5 one byte longer, all four build configurations'},
-    assumptions=['bytes are represented by character class (28 representatives), not all 256 values',
+    assumptions=['in D1-D5 bytes are represented by character class (28 representatives); all 256 values appear in D8 (one mutated byte per message) and in the C13 sweep',
                  'memory safety is judged by ASan/UBSan on this x86-64 build; uninitialised reads are not detected (no MSan run)'],
     level_text='Exhaustive over all short streams, all buffer sizes that can make any token end at or beyond the end of the buffer, all single-split segmentations and histories with six kinds of pending input; any sanitizer report, hang or out-of-range buffer position is a violation.',
     level_note='the SCPI_PARSER_VERIF hook makes reads of stale bytes behind the logical end of input trap',
